@@ -1,0 +1,85 @@
+/*-
+  verif_hooks.h -- verification hooks (compiled only with -DKJN_LBZIP2_VERIF)
+
+  The functions declared here are provided by an external runtime
+  (verif_rt.c) that is linked in by the verification harness.  Without
+  KJN_LBZIP2_VERIF this header declares nothing and changes nothing.
+*/
+
+#ifndef VERIF_HOOKS_H
+#define VERIF_HOOKS_H
+#ifdef KJN_LBZIP2_VERIF
+
+#include <pthread.h>
+#include <stddef.h>
+#include <stdint.h>
+
+/* Thread primitives (owned-schedule runtime or pass-through). */
+int vh_mutex_lock(pthread_mutex_t *m);
+int vh_mutex_unlock(pthread_mutex_t *m);
+int vh_cond_wait(pthread_cond_t *c, pthread_mutex_t *m);
+int vh_cond_signal(pthread_cond_t *c);
+int vh_cond_broadcast(pthread_cond_t *c);
+int vh_create(pthread_t *t, const pthread_attr_t *a, void *(*fn)(void *),
+              void *arg);
+int vh_join(pthread_t t, void **ret);
+
+/* Scheduling points around I/O. */
+enum { VH_PT_READ = 1, VH_PT_WRITE = 2 };
+void vh_point(int id);
+
+/* Main thread waits for a signal in halt(). */
+void vh_halt_enter(void);
+void vh_halt_leave(void);
+void vh_note_raise(int sig);
+void vh_after_raise(int sig);
+
+/* Decompression I/O block size overrides. */
+void vh_granul(int decompressing, size_t *in_granul, size_t *out_granul);
+
+/* Scheduler assertions. */
+void vh_run_begin(void);
+void vh_cap_register(const void *q, unsigned cap, const char *name);
+void vh_cap_check(const void *q, unsigned new_size, const char *name);
+void vh_cap_check2(unsigned new_size, unsigned cap, const char *name);
+void vh_conserve(int scheduled, unsigned work_units, unsigned num_worker,
+                 unsigned out_slots, unsigned total_out_slots);
+void vh_in_slots(int scheduled, unsigned in_slots, unsigned total_in_slots);
+void vh_final(int eof, unsigned in_slots, unsigned total_in_slots,
+              unsigned out_slots, unsigned total_out_slots,
+              unsigned work_units, unsigned num_worker);
+void vh_order(uint64_t major, uint64_t minor);
+
+/* Event trace (speculative work, reservation escapes). */
+enum {
+  VH_EV_SCAN_UNIQUE = 1,        /* scanner found a new candidate */
+  VH_EV_SCAN_KNOWN,             /* scanner found an already known header */
+  VH_EV_PARSE_CONFIRM,          /* parser confirmed a scanned block */
+  VH_EV_PARSE_MISRECOG,         /* parser passed a mis-recognised pattern */
+  VH_EV_PARSE_UNIQUE,           /* parser found a block nobody scanned */
+  VH_EV_ADV_STALE,              /* stale retrieve job released by advance() */
+  VH_EV_BEYOND_EOF,             /* candidate beyond end of stream released */
+  VH_EV_RETR_REDUNDANT,         /* retriever found itself redundant */
+  VH_EV_RETR_DONE_LATE,         /* retriever finished after parsing was done */
+  VH_EV_REORD_BOGUS,            /* reorder rejected a bogus block */
+  VH_EV_EMIT_MORE,              /* block needed another output buffer */
+  VH_EV_TRANSMIT_ESCAPE,        /* transmit ran below TRANSM_THRESH */
+  VH_EV_EMIT_ESCAPE,            /* emit ran below EMIT_THRESH */
+  VH_EV_SCAN_ESCAPE,            /* scan ran with the last work unit */
+  VH_EV_COLLECT_SPLIT,          /* input chunk split into >1 block */
+  VH_EV_TASK                    /* a worker ran a task */
+};
+void vh_event(int code);
+
+#ifdef VH_REDIRECT_PTHREAD
+#define pthread_mutex_lock vh_mutex_lock
+#define pthread_mutex_unlock vh_mutex_unlock
+#define pthread_cond_wait vh_cond_wait
+#define pthread_cond_signal vh_cond_signal
+#define pthread_cond_broadcast vh_cond_broadcast
+#define pthread_create vh_create
+#define pthread_join vh_join
+#endif
+
+#endif /* KJN_LBZIP2_VERIF */
+#endif /* VERIF_HOOKS_H */
